@@ -167,6 +167,13 @@ enum Op {
     Ci(KeyId, u64),
     G(KeyId, u64),
     H(KeyId, u64),
+    /// `Histogram::record_many(f64, n)`
+    Hm(KeyId, u64, u64),
+    /// `Counter::absolute(n)` (sequential scripts only: its result depends on where the readouts fall)
+    Ca(KeyId, u64),
+    /// `Gauge::increment(f64)` / `Gauge::decrement(f64)`
+    Gi(KeyId, u64),
+    Gd(KeyId, u64),
     D(usize, usize),
     R,
 }
@@ -181,6 +188,10 @@ impl Op {
             Op::Ci(k, n) => format!("ci:{}:{n}", k.enc()),
             Op::G(k, b) => format!("g:{}:{b:016x}", k.enc()),
             Op::H(k, b) => format!("h:{}:{b:016x}", k.enc()),
+            Op::Hm(k, b, n) => format!("hm:{}:{b:016x}:{n}", k.enc()),
+            Op::Ca(k, n) => format!("ca:{}:{n}", k.enc()),
+            Op::Gi(k, b) => format!("gi:{}:{b:016x}", k.enc()),
+            Op::Gd(k, b) => format!("gd:{}:{b:016x}", k.enc()),
             Op::D(n, u) => format!("d:{n}:{u}"),
             Op::R => "R".into(),
         }
@@ -198,6 +209,10 @@ impl Op {
             ["ci", k, n] => Op::Ci(KeyId::dec(k)?, n.parse().ok()?),
             ["g", k, b] => Op::G(KeyId::dec(k)?, u64::from_str_radix(b, 16).ok()?),
             ["h", k, b] => Op::H(KeyId::dec(k)?, u64::from_str_radix(b, 16).ok()?),
+            ["hm", k, b, n] => Op::Hm(KeyId::dec(k)?, u64::from_str_radix(b, 16).ok()?, n.parse().ok()?),
+            ["ca", k, n] => Op::Ca(KeyId::dec(k)?, n.parse().ok()?),
+            ["gi", k, b] => Op::Gi(KeyId::dec(k)?, u64::from_str_radix(b, 16).ok()?),
+            ["gd", k, b] => Op::Gd(KeyId::dec(k)?, u64::from_str_radix(b, 16).ok()?),
             ["d", n, u] => {
                 let (n, u): (usize, usize) = (n.parse().ok()?, u.parse().ok()?);
                 if n >= NAMES.len() || u >= UNITS.len() {
@@ -207,6 +222,23 @@ impl Op {
             }
             _ => return None,
         })
+    }
+}
+
+/// the public entry point an op goes through (for the input distribution of the report)
+fn op_kind(o: &Op) -> &'static str {
+    match o {
+        Op::RegC(_) | Op::RegG(_) | Op::RegH(_) => "op:register",
+        Op::C(..) => "op:Counter::increment",
+        Op::Ci(..) => "op:Counter::increment (kept handle)",
+        Op::Ca(..) => "op:Counter::absolute",
+        Op::G(..) => "op:Gauge::set",
+        Op::Gi(..) => "op:Gauge::increment",
+        Op::Gd(..) => "op:Gauge::decrement",
+        Op::H(..) => "op:Histogram::record",
+        Op::Hm(..) => "op:Histogram::record_many",
+        Op::D(..) => "op:describe",
+        Op::R => "op:readout",
     }
 }
 
@@ -256,7 +288,7 @@ impl Case {
             let mut have = BTreeSet::new();
             for o in &ops {
                 match o {
-                    Op::RegC(k) | Op::C(k, _) => {
+                    Op::RegC(k) | Op::C(k, _) | Op::Ca(k, _) => {
                         have.insert(k.clone());
                     }
                     Op::Ci(k, _) if !have.contains(k) => return None,
@@ -272,7 +304,7 @@ impl Case {
             let body = it.next().unwrap_or("");
             let threads: Option<Vec<Vec<Op>>> = body.split('|').map(dec_ops).collect();
             let threads = threads?;
-            if threads.iter().flatten().any(|o| matches!(o, Op::R | Op::Ci(..))) {
+            if threads.iter().flatten().any(|o| matches!(o, Op::R | Op::Ci(..) | Op::Ca(..))) {
                 return None;
             }
             Some(Case::Conc { ez, readers, rep, threads })
@@ -449,7 +481,7 @@ fn item_str(it: &Item) -> String {
             .iter()
             .map(|o| match o {
                 ObsC::U(n) => format!("u{n}"),
-                ObsC::F(b) => format!("f{b:016x}"),
+                ObsC::F(b) => format!("f{:016x}", canon_nan(*b)),
                 ObsC::R { total, occ } => match bucket_value(*total, *occ) {
                     Some(v) => format!("r{v}x{occ}x{total:016x}"),
                     None => format!("r?x{occ}x{total:016x}"),
@@ -492,6 +524,22 @@ fn entry_str(e: &CanonEntry) -> String {
     s
 }
 
+/// gauge values are compared up to the NaN payload: a NaN produced by arithmetic (`inf - inf`) has an unspecified sign /
+/// payload (x86 gives `fff8…`, Lean's `Float.toBits` a canonical `7ff8…`); the ledger oracle compares exact bits
+fn canon_nan(bits: u64) -> u64 {
+    if f64::from_bits(bits).is_nan() { 0x7ff8_0000_0000_0000 } else { bits }
+}
+
+fn canon_nan_item(it: &str) -> String {
+    let f: Vec<&str> = it.split('|').collect();
+    if f.len() == 5 && f[0] == "G" {
+        if let Some(b) = f[4].strip_prefix('f').and_then(|h| u64::from_str_radix(h, 16).ok()) {
+            return format!("G|{}|{}|{}|f{:016x}", f[1], f[2], f[3], canon_nan(b));
+        }
+    }
+    it.to_string()
+}
+
 /// sort the items of a model reply the same way
 fn canon_model_reply(reply: &str) -> String {
     if reply == "-" || reply == "bad-op" {
@@ -500,7 +548,8 @@ fn canon_model_reply(reply: &str) -> String {
     reply
         .split(" # ")
         .map(|e| {
-            let mut parts: Vec<&str> = e.split(';').collect();
+            let owned: Vec<String> = e.split(';').map(canon_nan_item).collect();
+            let mut parts: Vec<&str> = owned.iter().map(|s| s.as_str()).collect();
             if parts.len() > 2 {
                 parts[2..].sort();
             }
@@ -528,53 +577,93 @@ fn clamp_u32(bits: u64) -> u32 {
 }
 
 /// applies one updater op to the real recorder; `salt` varies label order and the API path (macro / trait)
-fn apply(rec: &Rec, handles: &mut HashMap<KeyId, metrics::Counter>, op: &Op, salt: usize) {
-    let via_macro = salt % 3 == 0;
+/// handles handed out by the bridge that a script keeps (and clones)
+#[derive(Default)]
+struct Handles {
+    c: HashMap<KeyId, metrics::Counter>,
+    g: HashMap<KeyId, metrics::Gauge>,
+    h: HashMap<KeyId, metrics::Histogram>,
+}
+
+fn labels_of(k: &KeyId, salt: usize) -> Vec<Label> {
+    k.key(salt).labels().cloned().collect()
+}
+
+/// the counter / gauge / histogram handle for `k`, obtained one of four ways (by `salt`): the `counter!`… macro under
+/// `with_local_recorder`, the `Recorder` trait, a handle kept from an earlier op, a clone of such a handle
+fn counter_handle(rec: &Rec, handles: &mut Handles, k: &KeyId, salt: usize) -> metrics::Counter {
+    let c = match (salt % 4, handles.c.get(k)) {
+        (2, Some(h)) => return h.clone(),
+        (3, Some(h)) => {
+            let c2 = h.clone();
+            return c2.clone();
+        }
+        (0, _) => {
+            let labels = labels_of(k, salt);
+            metrics::with_local_recorder(rec, || metrics::counter!(NAMES[k.name], labels.clone()))
+        }
+        _ => rec.register_counter(&k.key(salt), &META),
+    };
+    handles.c.entry(k.clone()).or_insert(c).clone()
+}
+
+fn gauge_handle(rec: &Rec, handles: &mut Handles, k: &KeyId, salt: usize) -> metrics::Gauge {
+    let g = match (salt % 4, handles.g.get(k)) {
+        (2, Some(h)) => return h.clone(),
+        (3, Some(h)) => {
+            let g2 = h.clone();
+            return g2.clone();
+        }
+        (0, _) => {
+            let labels = labels_of(k, salt);
+            metrics::with_local_recorder(rec, || metrics::gauge!(NAMES[k.name], labels.clone()))
+        }
+        _ => rec.register_gauge(&k.key(salt), &META),
+    };
+    handles.g.entry(k.clone()).or_insert(g).clone()
+}
+
+fn histogram_handle(rec: &Rec, handles: &mut Handles, k: &KeyId, salt: usize) -> metrics::Histogram {
+    let h = match (salt % 4, handles.h.get(k)) {
+        (2, Some(h)) => return h.clone(),
+        (3, Some(h)) => {
+            let h2 = h.clone();
+            return h2.clone();
+        }
+        (0, _) => {
+            let labels = labels_of(k, salt);
+            metrics::with_local_recorder(rec, || metrics::histogram!(NAMES[k.name], labels.clone()))
+        }
+        _ => rec.register_histogram(&k.key(salt), &META),
+    };
+    handles.h.entry(k.clone()).or_insert(h).clone()
+}
+
+/// applies one updater op to the real recorder; `salt` varies label order and the API path
+fn apply(rec: &Rec, handles: &mut Handles, op: &Op, salt: usize) {
     match op {
         Op::RegC(k) => {
             let c = rec.register_counter(&k.key(salt), &META);
-            handles.insert(k.clone(), c);
+            handles.c.insert(k.clone(), c);
         }
         Op::RegG(k) => {
-            let _ = rec.register_gauge(&k.key(salt), &META);
+            let g = rec.register_gauge(&k.key(salt), &META);
+            handles.g.insert(k.clone(), g);
         }
         Op::RegH(k) => {
-            let _ = rec.register_histogram(&k.key(salt), &META);
+            let h = rec.register_histogram(&k.key(salt), &META);
+            handles.h.insert(k.clone(), h);
         }
-        Op::C(k, n) => {
-            let c = if via_macro {
-                let key = k.key(salt);
-                let labels: Vec<Label> = key.labels().cloned().collect();
-                metrics::with_local_recorder(rec, || metrics::counter!(NAMES[k.name], labels.clone()))
-            } else {
-                rec.register_counter(&k.key(salt), &META)
-            };
-            c.increment(*n);
-            handles.entry(k.clone()).or_insert(c);
-        }
+        Op::C(k, n) => counter_handle(rec, handles, k, salt).increment(*n),
+        Op::Ca(k, n) => counter_handle(rec, handles, k, salt).absolute(*n),
         Op::Ci(k, n) => {
-            handles.get(k).expect("decode checked the handle").increment(*n);
+            handles.c.get(k).expect("decode checked the handle").increment(*n);
         }
-        Op::G(k, b) => {
-            let g = if via_macro {
-                let key = k.key(salt);
-                let labels: Vec<Label> = key.labels().cloned().collect();
-                metrics::with_local_recorder(rec, || metrics::gauge!(NAMES[k.name], labels.clone()))
-            } else {
-                rec.register_gauge(&k.key(salt), &META)
-            };
-            g.set(f64::from_bits(*b));
-        }
-        Op::H(k, b) => {
-            let h = if via_macro {
-                let key = k.key(salt);
-                let labels: Vec<Label> = key.labels().cloned().collect();
-                metrics::with_local_recorder(rec, || metrics::histogram!(NAMES[k.name], labels.clone()))
-            } else {
-                rec.register_histogram(&k.key(salt), &META)
-            };
-            h.record(f64::from_bits(*b));
-        }
+        Op::G(k, b) => gauge_handle(rec, handles, k, salt).set(f64::from_bits(*b)),
+        Op::Gi(k, b) => gauge_handle(rec, handles, k, salt).increment(f64::from_bits(*b)),
+        Op::Gd(k, b) => gauge_handle(rec, handles, k, salt).decrement(f64::from_bits(*b)),
+        Op::H(k, b) => histogram_handle(rec, handles, k, salt).record(f64::from_bits(*b)),
+        Op::Hm(k, b, n) => histogram_handle(rec, handles, k, salt).record_many(f64::from_bits(*b), *n as usize),
         Op::D(n, u) => {
             let name = KeyName::from(NAMES[*n]);
             match salt % 3 {
@@ -705,6 +794,23 @@ impl Ledger {
                 self.gauge.insert(k.clone(), *b);
             }
             Op::H(k, b) => self.hist.entry(k.clone()).or_default().push(clamp_u32(*b)),
+            Op::Hm(k, b, n) => {
+                let h = self.hist.entry(k.clone()).or_default();
+                h.extend(std::iter::repeat_n(clamp_u32(*b), *n as usize));
+            }
+            Op::Ca(k, n) => {
+                // `absolute(n)`: the counter is at least `n` afterwards
+                let c = self.ctr.entry(k.clone()).or_insert(0);
+                *c = (*c).max(*n);
+            }
+            Op::Gi(k, b) => {
+                let g = self.gauge.entry(k.clone()).or_insert(0);
+                *g = (f64::from_bits(*g) + f64::from_bits(*b)).to_bits();
+            }
+            Op::Gd(k, b) => {
+                let g = self.gauge.entry(k.clone()).or_insert(0);
+                *g = (f64::from_bits(*g) - f64::from_bits(*b)).to_bits();
+            }
             Op::D(n, u) => {
                 self.units.insert(*n, *u);
             }
@@ -814,7 +920,7 @@ fn run_script(ez: bool, ops: &[Op]) -> ScriptRun {
     let mut failure = None;
     let r = catch(|| {
         let rec: Rec = MetricRecorder::new_with_emit_zero_counters(ez);
-        let mut handles = HashMap::new();
+        let mut handles = Handles::default();
         let mut ledger = Ledger::default();
         for (i, op) in ops.iter().enumerate() {
             if *op == Op::R {
@@ -904,7 +1010,7 @@ fn run_conc(ez: bool, readers: usize, rep: usize, threads: &[Vec<Op>]) -> ConcRu
             ups.push(s.spawn(move || {
                 barrier.wait();
                 let r = catch(|| {
-                    let mut handles = HashMap::new();
+                    let mut handles = Handles::default();
                     for round in 0..rep {
                         for (i, op) in ops.iter().enumerate() {
                             apply(&rec, &mut handles, op, i + ti + round);
@@ -997,12 +1103,14 @@ fn judge(
     no_final: bool,
 ) -> (Option<(&'static str, String)>, String) {
     let n_readouts = all.len() + 1;
+    let sched_dep = schedule_dependent_gauges(threads);
     // what was asked of the bridge
     let mut inc_total: BTreeMap<KeyId, u64> = BTreeMap::new();
     let mut gauge_sets: BTreeMap<KeyId, BTreeSet<u64>> = BTreeMap::new();
     let mut gauge_last: BTreeMap<KeyId, BTreeSet<u64>> = BTreeMap::new();
     let mut recorded: BTreeMap<KeyId, Vec<u32>> = BTreeMap::new();
     let mut described: BTreeMap<usize, BTreeSet<usize>> = BTreeMap::new();
+    let mut arith: BTreeSet<KeyId> = BTreeSet::new();
     for ops in threads {
         let mut last: BTreeMap<KeyId, u64> = BTreeMap::new();
         for op in ops {
@@ -1030,14 +1138,55 @@ fn judge(
                         r.push(clamp_u32(*b));
                     }
                 }
+                Op::Hm(k, b, n) => {
+                    let r = recorded.entry(k.clone()).or_default();
+                    r.extend(std::iter::repeat_n(clamp_u32(*b), *n as usize * rep));
+                }
+                Op::Gi(k, _) | Op::Gd(k, _) => {
+                    gauge_sets.entry(k.clone()).or_default();
+                    arith.insert(k.clone());
+                }
                 Op::D(n, u) => {
                     described.entry(*n).or_default().insert(*u);
                 }
-                Op::Ci(..) | Op::R => {}
+                Op::Ci(..) | Op::Ca(..) | Op::R => {}
             }
         }
         for (k, b) in last {
             gauge_last.entry(k).or_default().insert(b);
+        }
+    }
+    // gauges moved by increment / decrement: with one thread of updates the final value is the fold of its gauge ops;
+    // with several threads the generator only increments / decrements such a gauge (never sets it) by dyadic amounts,
+    // whose sum is exact and order independent
+    let mut arith_final: BTreeMap<KeyId, u64> = BTreeMap::new();
+    for k in &arith {
+        let gauge_op = |o: &Op| match o {
+            Op::G(k2, b) if k2 == k => Some(('s', *b)),
+            Op::Gi(k2, b) if k2 == k => Some(('+', *b)),
+            Op::Gd(k2, b) if k2 == k => Some(('-', *b)),
+            _ => None,
+        };
+        if let [only] = threads {
+            let mut v = 0.0f64;
+            for _ in 0..rep {
+                for (c, b) in only.iter().filter_map(gauge_op) {
+                    let x = f64::from_bits(b);
+                    v = match c {
+                        's' => x,
+                        '+' => v + x,
+                        _ => v - x,
+                    };
+                }
+            }
+            arith_final.insert(k.clone(), v.to_bits());
+        } else if !threads.iter().flatten().filter_map(gauge_op).any(|(c, _)| c == 's') {
+            let mut v = 0.0f64;
+            for (c, b) in threads.iter().flatten().filter_map(gauge_op) {
+                let x = f64::from_bits(b) * rep as f64;
+                v = if c == '+' { v + x } else { v - x };
+            }
+            arith_final.insert(k.clone(), v.to_bits());
         }
     }
 
@@ -1052,7 +1201,7 @@ fn judge(
         let u = *us.iter().next().unwrap();
         let ok = threads.iter().all(|ops| {
             let first_use = ops.iter().position(|o| match o {
-                Op::RegC(k) | Op::RegG(k) | Op::RegH(k) | Op::C(k, _) | Op::Ci(k, _) | Op::G(k, _) | Op::H(k, _) => k.name == *n,
+                Op::RegC(k) | Op::RegG(k) | Op::RegH(k) | Op::C(k, _) | Op::Ci(k, _) | Op::G(k, _) | Op::H(k, _) | Op::Hm(k, _, _) | Op::Ca(k, _) | Op::Gi(k, _) | Op::Gd(k, _) => k.name == *n,
                 _ => false,
             });
             let first_desc = ops.iter().position(|o| matches!(o, Op::D(m, _) if m == n));
@@ -1134,7 +1283,7 @@ fn judge(
                     match gauge_sets.get(k) {
                         None => fail(("metricsrs:entry-shape", format!("gauge {} was never registered", k.enc()))),
                         Some(vals) => {
-                            if got != 0 && !vals.contains(&got) {
+                            if got != 0 && !vals.contains(&got) && !arith.contains(k) {
                                 fail(("metricsrs:gauge-last", format!("gauge {} reported {:016x}, never set to that", k.enc(), got)));
                             }
                         }
@@ -1182,6 +1331,16 @@ fn judge(
     for (k, sets) in &gauge_sets {
         match final_gauges.get(k) {
             None => fail(("metricsrs:gauge-last", format!("gauge {} missing from the final readout", k.enc()))),
+            Some(got) if arith.contains(k) => {
+                if let Some(exp) = arith_final.get(k) {
+                    if got != exp {
+                        fail((
+                            "metricsrs:gauge-last",
+                            format!("gauge {}: final value {:016x}, its set / increment / decrement operations amount to {:016x}", k.enc(), got, exp),
+                        ));
+                    }
+                }
+            }
             Some(got) => {
                 let ok = match gauge_last.get(k) {
                     Some(lasts) => lasts.contains(got),
@@ -1213,7 +1372,7 @@ fn judge(
         }
     }
     for (k, b) in &final_gauges {
-        let single = gauge_last.get(k).map(|l| l.len() <= 1).unwrap_or(true);
+        let single = !sched_dep.contains(k);
         let unit = final_units.get(&('G', k.clone())).copied().unwrap_or(0);
         // a gauge set by several threads has no schedule-independent final value: compared as "some last value"
         items.push(Item { kind: 'G', key: Ok(k.clone()), unit: Ok(unit), obs: vec![ObsC::F(if single { *b } else { 0 })] });
@@ -1244,15 +1403,31 @@ fn unit_of(described: &BTreeMap<usize, BTreeSet<usize>>, threads: &[Vec<Op>], na
 
 /// the model request for a concurrent case: any sequentialisation, one readout at the end; gauges set by several
 /// threads are masked (their final value is schedule dependent)
-fn conc_model_request(ez: bool, rep: usize, threads: &[Vec<Op>]) -> (String, BTreeSet<KeyId>) {
-    let mut multi: BTreeMap<KeyId, usize> = BTreeMap::new();
+/// gauges whose final value depends on the schedule: set by more than one thread, or set by one thread and incremented /
+/// decremented by another
+fn schedule_dependent_gauges(threads: &[Vec<Op>]) -> BTreeSet<KeyId> {
+    let mut setters: BTreeMap<KeyId, usize> = BTreeMap::new();
+    let mut arith: BTreeSet<KeyId> = BTreeSet::new();
     for ops in threads {
         let ks: BTreeSet<&KeyId> = ops.iter().filter_map(|o| if let Op::G(k, _) = o { Some(k) } else { None }).collect();
         for k in ks {
-            *multi.entry(k.clone()).or_insert(0) += 1;
+            *setters.entry(k.clone()).or_insert(0) += 1;
+        }
+        for o in ops {
+            if let Op::Gi(k, _) | Op::Gd(k, _) = o {
+                arith.insert(k.clone());
+            }
         }
     }
-    let masked: BTreeSet<KeyId> = multi.into_iter().filter(|(_, n)| *n > 1).map(|(k, _)| k).collect();
+    setters
+        .into_iter()
+        .filter(|(k, n)| *n > 1 || (threads.len() > 1 && arith.contains(k)))
+        .map(|(k, _)| k)
+        .collect()
+}
+
+fn conc_model_request(ez: bool, rep: usize, threads: &[Vec<Op>]) -> (String, BTreeSet<KeyId>) {
+    let masked = schedule_dependent_gauges(threads);
     let mut toks = vec![];
     for ops in threads {
         for o in ops {
@@ -1346,6 +1521,29 @@ fn gen_sample_bits(rng: &mut Rng) -> u64 {
     x.to_bits()
 }
 
+/// amounts for `Gauge::increment` / `decrement`: mostly dyadic, some that round, overflow or are infinite
+fn gen_gauge_amount(rng: &mut Rng) -> u64 {
+    let x: f64 = match rng.below(12) {
+        0 => 0.1,
+        1 => 1e308,
+        2 => f64::INFINITY,
+        3 => -0.0,
+        4 => -2.5,
+        _ => rng.range(1, 400) as f64 / 8.0,
+    };
+    x.to_bits()
+}
+
+/// counts for `record_many` (well below the u32 truncation boundary of a bucket; 0 is a no-op)
+fn gen_many(rng: &mut Rng) -> u64 {
+    match rng.below(10) {
+        0 => 0,
+        1 => 1,
+        2 => rng.range(1000, 5000),
+        _ => rng.range(2, 60),
+    }
+}
+
 fn gen_script(rng: &mut Rng, len: usize, small_keys: bool) -> Vec<Op> {
     let nkeys = rng.range(1, 6) as usize;
     let keys: Vec<KeyId> = (0..nkeys).map(|_| gen_key(rng, small_keys)).collect();
@@ -1365,12 +1563,16 @@ fn gen_script(rng: &mut Rng, len: usize, small_keys: bool) -> Vec<Op> {
             33..=35 => Op::RegC(k),
             36..=37 => Op::RegG(k),
             38..=39 => Op::RegH(k),
-            40..=52 => Op::G(k, gen_gauge_bits(rng)),
-            53..=77 => Op::H(k, gen_sample_bits(rng)),
+            40..=48 => Op::G(k, gen_gauge_bits(rng)),
+            49..=50 => Op::Gi(k, gen_gauge_amount(rng)),
+            51..=52 => Op::Gd(k, gen_gauge_amount(rng)),
+            53..=72 => Op::H(k, gen_sample_bits(rng)),
+            73..=76 => Op::Hm(k, gen_sample_bits(rng), gen_many(rng)),
+            77 => Op::Ca(k, gen_inc(rng)),
             78..=85 => Op::D(k.name, rng.below(UNITS.len() as u64) as usize),
             _ => Op::R,
         };
-        if let Op::RegC(k) | Op::C(k, _) = &op {
+        if let Op::RegC(k) | Op::C(k, _) | Op::Ca(k, _) = &op {
             have.insert(k.clone());
         }
         ops.push(op);
@@ -1426,6 +1628,10 @@ fn gen_conc(rng: &mut Rng, threads: usize, ops_per_thread: usize) -> Vec<Vec<Op>
                 60..=61 => Op::RegC(gen_key(rng, true)),
                 62 => Op::RegH(k),
                 63 => Op::RegG(k),
+                // a gauge that is only ever incremented / decremented, by dyadic amounts: its final value is the exact sum
+                64..=65 => Op::Gi(KeyId { name: NAMES.len() - 1, labels: vec![] }, (rng.range(1, 80) as f64 / 8.0).to_bits()),
+                66 => Op::Gd(KeyId { name: NAMES.len() - 1, labels: vec![] }, (rng.range(1, 80) as f64 / 8.0).to_bits()),
+                67..=68 => Op::Hm(k, *rng.pick(&palette), rng.below(120)),
                 _ => Op::H(k, *rng.pick(&palette)),
             };
             ops.push(op);
@@ -1753,7 +1959,7 @@ impl ReporterCase {
                     RStepH::Sleep(ms)
                 } else {
                     match Op::dec(t)? {
-                        Op::R | Op::Ci(..) => return None,
+                        Op::R | Op::Ci(..) | Op::Ca(..) => return None,
                         o => RStepH::Op(o),
                     }
                 });
@@ -1797,7 +2003,7 @@ impl metrique_writer_core::AnyEntrySink for RSink {
         if let Some(ops) = armed {
             let rr = self.reporter.lock().unwrap().clone();
             if let Some((rp, rec)) = rr {
-                let mut handles = HashMap::new();
+                let mut handles = Handles::default();
                 for (i, op) in ops.iter().enumerate() {
                     apply(&rec, &mut handles, op, i + 1);
                     self.log.lock().unwrap().push('u');
@@ -1842,7 +2048,7 @@ async fn run_reporter_script(ez: bool, interval_ms: u64, script: &[RStepH]) -> R
         .metrics_rs_version::<dyn metrics::Recorder>()
         .build_without_installing();
     *sink.reporter.lock().unwrap() = Some((reporter.clone(), rec.clone()));
-    let mut handles = HashMap::new();
+    let mut handles = Handles::default();
     let mut applied: Vec<Op> = vec![];
     for (i, st) in script.iter().enumerate() {
         match st {
@@ -1986,8 +2192,16 @@ fn gen_reporter_ops(rng: &mut Rng, n: usize) -> Vec<Op> {
             let k = rng.pick(&keys).clone();
             match rng.below(10) {
                 0..=4 => Op::C(k, rng.range(1, 9)),
-                5..=6 => Op::G(k, gen_gauge_bits(rng)),
+                5 => Op::G(k, gen_gauge_bits(rng)),
+                6 => {
+                    if rng.chance(1, 2) {
+                        Op::Gi(k, gen_gauge_amount(rng))
+                    } else {
+                        Op::Gd(k, gen_gauge_amount(rng))
+                    }
+                }
                 7 => Op::D(k.name, rng.range(1, UNITS.len() as u64 - 1) as usize),
+                8 => Op::Hm(k, gen_sample_bits(rng), rng.below(40)),
                 _ => Op::H(k, gen_sample_bits(rng)),
             }
         })
@@ -2063,7 +2277,16 @@ fn run_global_reporter() -> Option<(&'static str, String)> {
     };
     let k = KeyId { name: 0, labels: vec![] };
     let h = KeyId { name: 1, labels: vec![(0, 0)] };
-    let per_thread: Vec<Op> = (0..4000).map(|i| if i % 3 == 0 { Op::H(h.clone(), (i as f64).to_bits()) } else { Op::C(k.clone(), 1 + i % 4) }).collect();
+    let g = KeyId { name: NAMES.len() - 1, labels: vec![] };
+    let per_thread: Vec<Op> = (0..4000u64)
+        .map(|i| match i % 7 {
+            0 | 3 => Op::H(h.clone(), (i as f64).to_bits()),
+            5 => Op::Hm(h.clone(), (i as f64).to_bits(), i % 5),
+            4 => Op::Gi(g.clone(), ((1 + i % 9) as f64 / 4.0).to_bits()),
+            6 => Op::Gd(g.clone(), ((1 + i % 5) as f64 / 4.0).to_bits()),
+            _ => Op::C(k.clone(), 1 + i % 4),
+        })
+        .collect();
     std::thread::scope(|s| {
         for _ in 0..2 {
             s.spawn(|| {
@@ -2071,6 +2294,9 @@ fn run_global_reporter() -> Option<(&'static str, String)> {
                     match op {
                         Op::C(k, n) => metrics::counter!(NAMES[k.name]).increment(*n),
                         Op::H(k, b) => metrics::histogram!(NAMES[k.name], LKEYS[0] => LVALS[0]).record(f64::from_bits(*b)),
+                        Op::Hm(k, b, n) => metrics::histogram!(NAMES[k.name], LKEYS[0] => LVALS[0]).record_many(f64::from_bits(*b), *n as usize),
+                        Op::Gi(k, b) => metrics::gauge!(NAMES[k.name]).increment(f64::from_bits(*b)),
+                        Op::Gd(k, b) => metrics::gauge!(NAMES[k.name]).decrement(f64::from_bits(*b)),
                         _ => {}
                     }
                 }
@@ -2211,8 +2437,9 @@ fn main() {
                                 earlier = true;
                                 pending = false;
                             }
-                            Op::C(_, n) | Op::Ci(_, n) if *n > 0 => pending = true,
+                            Op::C(_, n) | Op::Ci(_, n) | Op::Ca(_, n) if *n > 0 => pending = true,
                             Op::H(..) => pending = true,
+                            Op::Hm(_, _, n) if *n > 0 => pending = true,
                             Op::D(..) => earlier = true,
                             _ => {}
                         }
@@ -2223,21 +2450,13 @@ fn main() {
                 rep.bump("kind:script");
                 rep.bump(&format!("script-len:{}", match ops.len() { 0..=8 => "1-8", 9..=40 => "9-40", 41..=200 => "41-200", _ => ">200" }));
                 for o in ops {
-                    rep.bump(match o {
-                        Op::RegC(_) | Op::RegG(_) | Op::RegH(_) => "op:register",
-                        Op::C(..) => "op:counter-inc",
-                        Op::Ci(..) => "op:counter-inc-handle",
-                        Op::G(..) => "op:gauge-set",
-                        Op::H(..) => "op:hist-record",
-                        Op::D(..) => "op:describe",
-                        Op::R => "op:readout",
-                    });
+                    rep.bump(op_kind(o));
                 }
                 // describe before / after the first registration of the name
                 let mut registered: BTreeSet<usize> = BTreeSet::new();
                 for o in ops {
                     match o {
-                        Op::RegC(k) | Op::RegG(k) | Op::RegH(k) | Op::C(k, _) | Op::G(k, _) | Op::H(k, _) => {
+                        Op::RegC(k) | Op::RegG(k) | Op::RegH(k) | Op::C(k, _) | Op::G(k, _) | Op::H(k, _) | Op::Hm(k, _, _) | Op::Ca(k, _) | Op::Gi(k, _) | Op::Gd(k, _) => {
                             registered.insert(k.name);
                         }
                         Op::D(n, _) => rep.bump(if registered.contains(n) { "describe:after-register" } else { "describe:before-register" }),
@@ -2308,6 +2527,13 @@ fn main() {
                 let n_updates: usize = rc.scripts.iter().flatten().filter(|s| matches!(s, RStepH::Op(_) | RStepH::CancelInSink(_))).count();
                 rep.case(&enc, n_updates > 0);
                 rep.bump("kind:reporter");
+                for st in rc.scripts.iter().flatten() {
+                    match st {
+                        RStepH::Op(o) => rep.bump(&format!("reporter-{}", op_kind(o))),
+                        RStepH::CancelInSink(ops) => ops.iter().for_each(|o| rep.bump(&format!("reporter-{}", op_kind(o)))),
+                        _ => {}
+                    }
+                }
                 rep.bump(if rc.mt { "reporter:multi-thread runtime" } else { "reporter:current-thread runtime (paused clock)" });
                 rep.bump(&format!("reporter:scripts:{}", rc.scripts.len()));
                 let first = rc.scripts[0].iter().position(|s| matches!(s, RStepH::Op(_)));
@@ -2378,6 +2604,9 @@ fn main() {
                 let updated = threads.iter().flatten().any(|o| matches!(o, Op::C(..) | Op::H(..)));
                 rep.case(&enc, r.overlapping_readouts > 0 && updated);
                 rep.bump("kind:concurrent");
+                for o in threads.iter().flatten() {
+                    rep.bump_by(&format!("conc-{}", op_kind(o)), *reps as u64);
+                }
                 rep.bump(&format!("conc-threads:{}", threads.len()));
                 rep.bump(&format!("conc-readers:{}", if *readers == 0 { "MetricReporter task".to_string() } else { readers.to_string() }));
                 rep.bump_by("conc:readouts", r.readouts as u64);
